@@ -22,9 +22,25 @@ structure Cfg where
   testObf : Bytes := []       -- `literals.TestObfuscator`
   gogarble : Bytes := []
   binaryID : Bytes := []      -- content ID of the garble binary
+  xTargets : List Bytes := [] -- sorted, deduplicated `importpath.name` targets of -ldflags=-X (linkerVariableNames)
   deriving Repr, DecidableEq
 
 def seedString (seed : Bytes) : Bytes := GV.Base64.encodeStd seed
+
+/-- byte-wise lexicographic order (Go's string `<`) -/
+def bytesLt : Bytes → Bytes → Bool
+  | [], [] => false
+  | [], _ :: _ => true
+  | _ :: _, [] => false
+  | a :: as, b :: bs => a < b || (a == b && bytesLt as bs)
+
+def insertSorted (x : Bytes) : List Bytes → List Bytes
+  | [] => [x]
+  | y :: ys => if x == y then y :: ys else if bytesLt x y then x :: y :: ys else y :: insertSorted x ys
+
+/-- `linkerVariableNames`: the part before '=' of every -X value that has one, sorted and deduplicated -/
+def linkerVariableNames (xvals : List Bytes) : List Bytes :=
+  (xvals.filterMap fun v => if v.contains 61 then some (v.takeWhile (· != 61)) else none).foldl (fun acc n => insertSorted n acc) []
 
 /-- `appendFlags(w, forBuildHash)` -/
 def appendFlags (c : Cfg) (forBuildHash : Bool) : Bytes :=
@@ -34,7 +50,8 @@ def appendFlags (c : Cfg) (forBuildHash : Bool) : Bytes :=
   (if !c.debugDir.isEmpty && !forBuildHash then str " -debugdir=" ++ c.debugDir else []) ++
   (if !c.seed.isEmpty then str " -seed=" ++ seedString c.seed else []) ++
   (if c.ctrlflow && forBuildHash then str " -ctrlflow" else []) ++
-  (if !c.testObf.isEmpty && forBuildHash then c.testObf else [])
+  (if !c.testObf.isEmpty && forBuildHash then c.testObf else []) ++
+  (if c.literals && forBuildHash then (c.xTargets.map fun n => str " -X=" ++ n).flatten else [])
 
 /-- what `addGarbleToHash` writes into the hasher -/
 def garblePreImage (c : Cfg) (input : Bytes) : Bytes :=
